@@ -6,6 +6,8 @@ package main
 //
 //   verify-errors        5 update definitions × k streams with zero aggregator: ValidateObservation
 //                        (which formats the joined error through %w) and VerifyChannelDefinitions + Error()
+//   decode-errors        an observation with n stream values that all fail to decode: ValidateObservation and
+//                        ObservationCodec.Decode + Error()
 //   verify-errors-defs   n definitions failing the other checks (no streams / codec.Verify rejecting)
 //   evm-payload-errors   ReportCodecEVMABIEncodeUnpacked.Encode with k values that all fail to encode
 //                        (buildPayload joins per failing value) + Error()
@@ -96,6 +98,29 @@ func costFamilyErrors(family string, n int, p *llo.Plugin) []costCall {
 			return nil
 		}
 		return []costCall{v, {"VerifyChannelDefinitions+Error", len(obs), costFormatted(func() error { return llo.VerifyChannelDefinitions(p.ReportCodecs, defs) })}}
+	case "decode-errors":
+		// an observation whose n stream values all fail to decode (decimal with empty bytes): the decoder
+		// may stop at the first or report all of them, but formatting what it reports must stay linear
+		svs := map[uint32]*llo.LLOStreamValue{}
+		for i := 0; i < n; i++ {
+			svs[uint32(1<<28+i)] = &llo.LLOStreamValue{Type: llo.LLOStreamValue_Decimal}
+		}
+		obs, err := proto.Marshal(&llo.LLOObservationProto{UnixTimestampNanoseconds: 3_000_000_000, StreamValues: svs})
+		if err != nil {
+			panic(err)
+		}
+		v := costValidateCall(p, obs)
+		inner := v.f
+		v.f = func() error {
+			if err := inner(); err == nil {
+				return errors.New("unexpectedly valid")
+			}
+			return nil
+		}
+		return []costCall{v, {"ObservationCodec.Decode+Error", len(obs), costFormatted(func() error {
+			_, err := p.ObservationCodec.Decode(obs)
+			return err
+		})}}
 	case "verify-errors-defs":
 		defs := llotypes.ChannelDefinitions{}
 		size := 0
